@@ -90,6 +90,16 @@ def edits(s):
         out.add(s + suf)
     for pre in ("./", "IMG-", "L-", "x_", "/"):
         out.add(pre + s)
+    # a dash-separated component written twice, dropped, or swapped with its neighbour
+    parts = s.split("-")
+    if len(parts) > 1:
+        for i in range(len(parts)):
+            out.add("-".join(parts[: i + 1] + parts[i:]))
+            out.add("-".join(parts[:i] + parts[i + 1 :]))
+            for alt in ("HH", "HV", "VH", "VV", "F1", "B2"):
+                out.add("-".join(parts[: i + 1] + [alt] + parts[i + 1 :]))
+            if i + 1 < len(parts):
+                out.add("-".join(parts[:i] + [parts[i + 1], parts[i]] + parts[i + 2 :]))
     out.discard(s)
     return sorted(out)
 
